@@ -132,9 +132,12 @@ pub fn build_command(root: &Path, cfg: &Config) -> MosResult<()> {
     bw.write_banks(banks, &target_dir, &filename)?;
 
     if cfg.build.listing {
-        for (source_path, contents) in
+        let mut listings: Vec<_> =
             to_listing(&generated_code, cfg.formatting.listing.num_bytes_per_line)?
-        {
+                .into_iter()
+                .collect();
+        listings.sort();
+        for (source_path, contents) in listings {
             let listing_path =
                 format!("{}.lst", source_path.file_stem().unwrap().to_string_lossy());
             let mut out = fs::File::create(target_dir.join(listing_path)).map_err(map_io_error)?;
